@@ -44,6 +44,8 @@ def run_case(args):
     kind, o, e1, zooms = gen(ctx.seed, i, ctx.tier)
     P0 = physics.derive(o)
     steps = P0["steps"]
+    if kind in ("damp", "diff"):
+        e1 = min(e1, 0.4 / steps)          # a few per cent per period: the widths stay resolvable over the whole run
     td = 2.0 / (P0["fs"] * e1 * steps)
     out = dict(i=i, kind=kind, viol=[], res={}, opts=dict(o, e1=e1), runs=0, incon=[])
     wd = os.path.join(sdir, "c%04d" % i)
